@@ -129,7 +129,23 @@ func staticRule() ([]engine.Failure, map[string]any) {
 	repo := "/repo"
 	pkgs := []string{"./x/alliance", "./x/alliance/keeper", "./x/alliance/types", "./x/alliance/bindings", "./x/alliance/bindings/types", "./custom/bank/keeper", "./custom/bank/types", "./custom/bank"}
 	cov := map[string]any{}
-	cmd := exec.Command("go", append([]string{"list", "-export", "-deps", "-json=ImportPath,Export,Dir,GoFiles,Standard"}, pkgs...)...)
+	// mutants are demonstrated through `go build -overlay` (VERIF_OVERLAY): scan the files the binary was built from
+	replace := map[string]string{}
+	listArgs := []string{"list", "-export", "-deps", "-json=ImportPath,Export,Dir,GoFiles,Standard"}
+	if ov := os.Getenv("VERIF_OVERLAY"); ov != "" {
+		var o struct{ Replace map[string]string }
+		if b, err := os.ReadFile(ov); err == nil && json.Unmarshal(b, &o) == nil {
+			replace = o.Replace
+			listArgs = append(listArgs, "-overlay="+ov)
+		}
+	}
+	src := func(path string) string {
+		if r, ok := replace[path]; ok && r != "" {
+			return r
+		}
+		return path
+	}
+	cmd := exec.Command("go", append(listArgs, pkgs...)...)
 	cmd.Dir = repo
 	cmd.Env = append(os.Environ(), "GOFLAGS=-mod=mod", "GOPROXY=off", "GOSUMDB=off", "GOTOOLCHAIN=local")
 	outb, err := cmd.Output()
@@ -163,7 +179,8 @@ func staticRule() ([]engine.Failure, map[string]any) {
 		"x/alliance/invariants.go:validatorShares[asset.Denom]": true,
 	}
 	var fails []engine.Failure
-	files, ranges, mapRanges := 0, 0, 0
+	origName := map[*ast.File]string{}
+	files, ranges, mapRanges, sortedRanges := 0, 0, 0, 0
 	var scanned []string
 	for _, p := range targets {
 		var asts []*ast.File
@@ -171,12 +188,13 @@ func staticRule() ([]engine.Failure, map[string]any) {
 			if strings.HasSuffix(f, "_test.go") || strings.HasSuffix(f, ".pb.go") || strings.HasSuffix(f, ".pb.gw.go") {
 				continue
 			}
-			af, err := parser.ParseFile(fset, filepath.Join(p.Dir, f), nil, parser.SkipObjectResolution)
+			af, err := parser.ParseFile(fset, src(filepath.Join(p.Dir, f)), nil, parser.SkipObjectResolution)
 			if err != nil {
 				fails = append(fails, fail("static-rule", "harness", "parse %s: %v", f, err))
 				continue
 			}
 			asts = append(asts, af)
+			origName[af] = filepath.Join(p.Dir, f)
 			files++
 		}
 		// type-check the whole package (generated files too, for their declarations)
@@ -194,7 +212,32 @@ func staticRule() ([]engine.Failure, map[string]any) {
 		_, _ = conf.Check(p.ImportPath, fset, all, info)
 		scanned = append(scanned, p.ImportPath)
 		for _, af := range asts {
-			rel, _ := filepath.Rel(repo, fset.Position(af.Pos()).Filename)
+			rel, _ := filepath.Rel(repo, origName[af])
+			// order-insensitive idioms that are not reported: (a) a map range whose body only appends to slices that the
+			// enclosing function sorts afterwards; (b) time.Now() passed straight to a telemetry call
+			sortedAfter := map[*ast.RangeStmt]bool{}
+			telemetryNow := map[*ast.SelectorExpr]bool{}
+			ast.Inspect(af, func(n ast.Node) bool {
+				switch fn := n.(type) {
+				case *ast.FuncDecl:
+					if fn.Body != nil {
+						markSortedRanges(fn.Body, sortedAfter)
+					}
+				case *ast.CallExpr:
+					if sel, ok := fn.Fun.(*ast.SelectorExpr); ok {
+						if id, ok := sel.X.(*ast.Ident); ok && id.Name == "telemetry" {
+							for _, a := range fn.Args {
+								if c, ok := a.(*ast.CallExpr); ok {
+									if s2, ok := c.Fun.(*ast.SelectorExpr); ok {
+										telemetryNow[s2] = true
+									}
+								}
+							}
+						}
+					}
+				}
+				return true
+			})
 			ast.Inspect(af, func(n ast.Node) bool {
 				switch v := n.(type) {
 				case *ast.RangeStmt:
@@ -205,6 +248,10 @@ func staticRule() ([]engine.Failure, map[string]any) {
 							pos := fset.Position(v.Pos())
 							// the three loops in invariants.go iterate maps only to format the message of an already broken invariant
 							if rel == "x/alliance/invariants.go" {
+								return true
+							}
+							if sortedAfter[v] {
+								sortedRanges++
 								return true
 							}
 							fails = append(fails, fail("static-rule", "range-over-map", "%s:%d ranges over a map in state-machine code", rel, pos.Line))
@@ -222,7 +269,7 @@ func staticRule() ([]engine.Failure, map[string]any) {
 						if obj, ok := info.Uses[id]; ok {
 							if pn, ok := obj.(*types.PkgName); ok {
 								ip := pn.Imported().Path()
-								if ip == "time" && (v.Sel.Name == "Now" || v.Sel.Name == "Since" || v.Sel.Name == "Until") {
+								if ip == "time" && (v.Sel.Name == "Now" || v.Sel.Name == "Since" || v.Sel.Name == "Until") && !telemetryNow[v] {
 									// telemetry.ModuleMeasureSince(ctx.BlockTime()) does not call time.Now in the module itself
 									fails = append(fails, fail("static-rule", "wall-clock", "%s:%d calls time.%s", rel, fset.Position(v.Pos()).Line, v.Sel.Name))
 								}
@@ -247,13 +294,70 @@ func staticRule() ([]engine.Failure, map[string]any) {
 		"files":               files,
 		"range_statements":    ranges,
 		"map_range_statements": mapRanges,
+		"map_ranges_collect_then_sort": sortedRanges,
 		"whitelisted":         "the map ranges in x/alliance/invariants.go (they only build the message of an already broken invariant)",
-		"rules":               "range over map-typed operand, time.Now/Since/Until, math/rand or crypto/rand, go statements, select",
+		"rules":               "range over map-typed operand (not reported: body only appends to slices that the function sorts afterwards), time.Now/Since/Until (not reported: time.Now() passed straight to a telemetry call), math/rand or crypto/rand, go statements, select",
 	}
 	if files == 0 {
 		fails = append(fails, fail("static-rule", "harness", "no source files scanned"))
 	}
 	return fails, cov
+}
+
+// markSortedRanges marks the range statements of one function body whose body consists only of `x = append(x, ...)`
+// statements for slices x that are passed to a sort/slices sorting call later in the same function.
+func markSortedRanges(body *ast.BlockStmt, out map[*ast.RangeStmt]bool) {
+	sorted := map[string]token.Pos{}
+	ast.Inspect(body, func(n ast.Node) bool {
+		c, ok := n.(*ast.CallExpr)
+		if !ok || len(c.Args) == 0 {
+			return true
+		}
+		sel, ok := c.Fun.(*ast.SelectorExpr)
+		if !ok {
+			return true
+		}
+		pk, ok := sel.X.(*ast.Ident)
+		if !ok || (pk.Name != "sort" && pk.Name != "slices") || !(strings.HasPrefix(sel.Sel.Name, "Sort") || sel.Sel.Name == "Slice" || sel.Sel.Name == "SliceStable" || sel.Sel.Name == "Strings" || sel.Sel.Name == "Ints" || sel.Sel.Name == "Stable") {
+			return true
+		}
+		if id, ok := c.Args[0].(*ast.Ident); ok {
+			sorted[id.Name] = c.Pos()
+		}
+		return true
+	})
+	ast.Inspect(body, func(n ast.Node) bool {
+		r, ok := n.(*ast.RangeStmt)
+		if !ok || len(r.Body.List) == 0 {
+			return true
+		}
+		for _, st := range r.Body.List {
+			as, ok := st.(*ast.AssignStmt)
+			if !ok || len(as.Lhs) != 1 || len(as.Rhs) != 1 {
+				return true
+			}
+			lhs, ok := as.Lhs[0].(*ast.Ident)
+			if !ok {
+				return true
+			}
+			call, ok := as.Rhs[0].(*ast.CallExpr)
+			if !ok {
+				return true
+			}
+			fn, ok := call.Fun.(*ast.Ident)
+			if !ok || fn.Name != "append" || len(call.Args) == 0 {
+				return true
+			}
+			if a0, ok := call.Args[0].(*ast.Ident); !ok || a0.Name != lhs.Name {
+				return true
+			}
+			if pos, ok := sorted[lhs.Name]; !ok || pos < r.End() {
+				return true
+			}
+		}
+		out[r] = true
+		return true
+	})
 }
 
 func init() {
